@@ -200,6 +200,9 @@ class Proof:
 
     def find_item(self, id: ItemID) -> ProofItem:
         """Find item at the given id."""
+        # Negative numbers would index from the end of the proof.
+        if any(i < 0 for i in id.id):
+            raise ProofStateException
         try:
             item = self.items[id.id[0]]
             for i in id.id[1:]:
